@@ -765,7 +765,12 @@ PROTOCOLS["Allowed"] = AllowedProtocol()
 
 
 def allowed_char(s, c):
-    """Character c (folded to upper case, as NumEdit does) belongs to the widget's alphabet."""
+    """Character c (folded to upper case, as NumEdit does) belongs to the widget's alphabet.
+    NOTE: this is the widget's *own* membership test `ch.upper() in allowed`, with str.upper() and the container opaque.
+    The literal reading of the statement ("no character outside the alphabet") is stronger and is NOT what is proved
+    here: with `allowed` a str the test is a substring test on the upper-cased character, so e.g. 'ı'.upper() == 'I',
+    'ſ'.upper() == 'S', 'ﬆ'.upper() == 'ST' pass it for large bases (found by the bounded side; IntegerEdit('', None, 36)
+    accepts the key 'ı').  That reading needs the real str.upper / substring semantics: bounded only."""
     return mk_bool(_ALLOWED_HAS(s._allowed.e, CHAR_UPPER(c.e)))
 
 
